@@ -8,6 +8,8 @@
      gen_alpha_eq_R                    StateSpace.alpha                   = alpha_vec (over the reals)
      gen_lineage_init_*                the three container forms of LineageConfig(n): counts in the given order, total, names
      gen_locus_eq_spec                 LocusConfig.__eq__ decides equality of the stored attributes
+     gen_completion_*                  AbstractCoalescent.__init__: the given populations keep their order and counts, the added ones get 0
+                                       lineages (total unchanged); the demography is completed with size 1 for exactly the unknown sampled populations
 
    and what follows for the SOURCE: invalid locus configurations are rejected and valid ones accepted
    (source_locus_config_rejects / _accepts), alpha is a probability vector concentrated on the states that match the sample
@@ -265,6 +267,44 @@ Section EpochEq.
   Proof. intros. repeat split. Qed.
 End EpochEq.
 
+(* ---------------------------------------------------------------- AbstractCoalescent.__init__: completion of populations *)
+Theorem gen_completion_keeps_given : forall d so, firstn (length d) (Coalescent_completed_lineages d so) = d.
+Proof. intros d so. unfold Coalescent_completed_lineages. rewrite firstn_app, Nat.sub_diag, firstn_all. cbn. apply app_nil_r. Qed.
+
+Theorem gen_completion_given_counts : forall d so p,
+  (exists v, dict_get p d = Some v) -> dict_get p (Coalescent_completed_lineages d so) = dict_get p d.
+Proof.
+  intros d so p [v Hv]. unfold Coalescent_completed_lineages, dict_get in *.
+  induction d as [|kv d IH]; [discriminate|]. cbn in *. destruct (String.eqb (fst kv) p); [reflexivity|]. apply IH. exact Hv.
+Qed.
+
+Theorem gen_completion_added_counts : forall d so p,
+  dict_get p d = None -> In p so -> dict_get p (Coalescent_completed_lineages d so) = Some 0%Z.
+Proof.
+  intros d so p Hn Hin. unfold Coalescent_completed_lineages, dict_get in *.
+  induction d as [|kv d IH].
+  - cbn. clear Hn. induction so as [|q so IHs]; [destruct Hin|]. cbn.
+    destruct (String.eqb q p) eqn:E; [reflexivity|]. destruct Hin as [->|Hin]; [rewrite String.eqb_refl in E; discriminate|]. apply IHs. exact Hin.
+  - cbn in *. destruct (String.eqb (fst kv) p); [discriminate|]. apply IH. exact Hn.
+Qed.
+
+Theorem gen_completion_total : forall d so,
+  fold_right Z.add 0%Z (map snd (Coalescent_completed_lineages d so)) = fold_right Z.add 0%Z (map snd d).
+Proof.
+  intros d so. unfold Coalescent_completed_lineages. rewrite map_app, fold_right_app. f_equal.
+  induction so as [|q so IH]; [reflexivity|]. cbn. exact IH.
+Qed.
+
+(* the populations added to the demography are exactly the sampled ones it does not know, each with size 1 *)
+Theorem gen_initial_sizes_spec : forall sn dn p v,
+  In (p, v) (Coalescent_initial_sizes sn dn) <-> In p sn /\ existsb (String.eqb p) dn = false /\ v = 1%Q.
+Proof.
+  intros sn dn p v. unfold Coalescent_initial_sizes. rewrite in_map_iff. split.
+  - intros [q [E Hq]]. injection E as -> <-. apply filter_In in Hq. destruct Hq as [H1 H2]. apply negb_true_iff in H2. auto.
+  - intros [H1 [H2 ->]]. exists p. split; [reflexivity|]. apply filter_In. split; [exact H1|]. rewrite H2. reflexivity.
+Qed.
+
+Print Assumptions gen_completion_given_counts.
 Print Assumptions gen_epoch_eq_sound.
 Print Assumptions source_eqk_sound.
 Print Assumptions gen_locus_config_guards.
